@@ -43,11 +43,22 @@ pub fn check_nagle_on(rep: &mut CaseReport, m: &SenderModel, events: &[Event]) {
         }
         s
     };
-    // hook cross-check: sizes of segments that the library itself classified as window limited
-    let mut hook_window_limited: Vec<(Us, usize)> = Vec::new();
-    for e in events {
-        if let Ev::Hook(V::Segmented { payload_size, window_limited: true, .. }) = &e.ev {
-            hook_window_limited.push((e.t, *payload_size));
+    // Second way to see that the peer's window was the limit: the library cuts segments ahead of
+    // transmission, in runs (one call, consecutive Segmented hook events); a run that fills the
+    // window ends in a short segment. The hook's own `window_limited` flag is NOT believed: the
+    // run's payload sizes must add up to a window value the endpoint had processed before.
+    // (event index, payload size, starts a new run)
+    let mut cuts: Vec<(usize, usize, bool)> = Vec::new();
+    {
+        let mut prev_was_cut = false;
+        for (i, e) in events.iter().enumerate() {
+            match &e.ev {
+                Ev::Hook(V::Segmented { payload_size, .. }) => {
+                    cuts.push((i, *payload_size, !prev_was_cut));
+                    prev_was_cut = true;
+                }
+                _ => prev_was_cut = false,
+            }
         }
     }
     let windows: Vec<(usize, u32)> = m.acks.iter().map(|a| (a.ev_idx, a.wnd)).collect();
@@ -82,9 +93,24 @@ pub fn check_nagle_on(rep: &mut CaseReport, m: &SenderModel, events: &[Event]) {
                 break;
             }
         }
-        if !limited && hook_window_limited.iter().any(|(t, sz)| *t <= s.t && *sz == s.len) {
-            limited = true;
-            rep.counters.inc("c18_window_limited_by_hook");
+        if !limited {
+            // the cut that produced this segment: the latest one of this size before the send
+            if let Some(ci) = cuts.iter().rposition(|(ei, sz, _)| *ei < s.ev_idx && *sz == s.len) {
+                let mut sum = 0u64;
+                let mut j = ci;
+                loop {
+                    sum += cuts[j].1 as u64;
+                    if windows.iter().any(|(ei, w)| *ei < cuts[ci].0 && *w as u64 == sum) {
+                        limited = true;
+                        rep.counters.inc("c18_window_limited_by_cut_run");
+                        break;
+                    }
+                    if cuts[j].2 || j == 0 {
+                        break;
+                    }
+                    j -= 1;
+                }
+            }
         }
         if limited {
             rep.counters.inc("c18_window_limited_partials");
